@@ -199,3 +199,62 @@ Fixpoint wf_tree (t : tree) : bool :=
   | Dir _ cs => nodupb (map tree_name cs) && forallb wf_tree cs
   end.
 Definition wf_children (cs : list tree) : bool := nodupb (map tree_name cs) && forallb wf_tree cs.
+
+(* ==================================================================== *)
+(* ---- the FILE-NAME rule, one file at a time (seeded change C20-6) ---- *)
+(* ==================================================================== *)
+(* "whose name neither starts with a dot nor ends in .yaml, .json, .md or .txt": a condition
+   on the byte string of the name.  [excluded_ending] above reads it as written ("ends in");
+   [has_excluded_extension] reads it through the file's EXTENSION - the part of the name from
+   its LAST dot on (empty when the name has no dot).  C20_NameProofs shows that the two
+   readings agree on every name and that the model's filepath.Ext computes exactly this
+   extension. *)
+Fixpoint last_dot_suffix (n : bytes) : bytes :=
+  match n with
+  | [] => []
+  | x :: r => match last_dot_suffix r with
+              | [] => if N.eqb x 46 then x :: r else []
+              | s => s
+              end
+  end.
+
+(* the letters of the four extensions, and the extensions *)
+Definition ext_letters : list bytes :=
+  [[121; 97; 109; 108]; [106; 115; 111; 110]; [109; 100]; [116; 120; 116]].       (* yaml json md txt *)
+Definition excluded_exts : list bytes := map (cons 46) ext_letters.               (* .yaml .json .md .txt *)
+
+Definition has_excluded_extension (n : bytes) : bool := mem_bytes (last_dot_suffix n) excluded_exts.
+
+(* the conditions of the statement that concern the file itself (not its directory) *)
+Definition file_ok (n : bytes) (m : N) : bool :=
+  has_exec_bit m && negb (hidden n) && negb (excluded_ending n).
+
+(* how often a path occurs in a list *)
+Definition count (x : bytes) (l : list bytes) : nat := length (filter (bytes_eqb x) l).
+
+(* every file of the tree, one by one: it is among the discovered paths exactly once when it
+   meets the conditions of the statement and not at all otherwise *)
+Definition P_each_file (i : input) (o : obs) : bool :=
+  match strip_all (wd_of i) (o_paths o) with
+  | None => false
+  | Some rels =>
+      forallb (fun e => Nat.eqb (count (entry_path e) rels) (if entry_is_hook e then 1 else 0))
+              (all_files (i_children i))
+  end.
+
+(* "every discovered file is asked for --config exactly once": file by file - a file that is
+   not a hook is never run; a hook is run exactly once when Init succeeds and at most once when
+   Init fails (the hooks after the failing one are not reached) *)
+Definition P_each_file_init (i : input) (io : init_obs) : bool :=
+  match strip_all (wd_of i) (io_asked io) with
+  | None => false
+  | Some asked =>
+      forallb (fun e => let k := count (entry_path e) asked in
+                        if entry_is_hook e
+                        then (if N.eqb (io_status io) 0 then Nat.eqb k 1 else Nat.leb k 1)
+                        else Nat.eqb k 0)
+              (all_files (i_children i))
+  end.
+
+Definition P_files (i : input) (o : obs) : bool :=
+  P_each_file i o && match o_init o with None => true | Some io => P_each_file_init i io end.
